@@ -88,7 +88,15 @@ func (s *RSchema) generateExample() ([]byte, error) {
 	return append([]byte(nil), ex...), nil
 }
 
-func (s *RSchema) generateExampleOnce() ([]byte, error) {
+func (s *RSchema) generateExampleOnce() (ex []byte, err error) {
+	// The generator panics on classes it cannot draw from (/[^\x00-\x7f]/ ends in
+	// rand.Intn(0)); the caller gets an error, not a panic.
+	defer func() {
+		if r := recover(); r != nil {
+			ex, err = nil, errs.ErrRegexExample.F(r)
+		}
+	}()
+
 	g, err := s.generatorOnce.Do(func() (*reggen.Generator, error) {
 		g, err := reggen.NewGenerator(s.pattern)
 		if err != nil {
